@@ -56,6 +56,7 @@ func init() {
 		zz + "Quiesce":  func(fr *frame, a []value) value { return fr.i.sched.quiesce() },
 		zz + "Param":    zzParam,
 		zz + "Baseline": func(fr *frame, a []value) value { return nil },
+		zz + "Jitter":   func(fr *frame, a []value) value { return nil },
 		zz + "Gate": func(fr *frame, a []value) value {
 			fr.i.ps.events = append(fr.i.ps.events, "gate "+fr.cstr(a[0]))
 			return nil
